@@ -1,0 +1,20 @@
+//go:build verif
+
+// Contracts for govc (contract-based deductive verification, see /verif/DESIGN.md).
+// Comment-only file: it adds no code and is compiled only with -tags verif.
+
+package ctrl
+
+// What main learns about schema initialisation and retention is what the phase itself
+// returned: an interrupted upgrade or rotation is reported as an error - never as a
+// successful start with scripts skipped or retention not applied.
+//@ func Init [C18]
+//@   flag checks=-index,-assert,-panic
+//@   check the-outcome-of-the-upgrade-is-reported: ok ==> result == err
+//@   loop 1:
+//@     modifies everything
+//@ func Rotate [C19]
+//@   flag checks=-index,-assert,-panic
+//@   check the-outcome-of-the-rotation-is-reported: ok ==> result == err
+//@   loop 1:
+//@     modifies everything
